@@ -1,0 +1,10 @@
+//go:build verif
+
+// Contracts for the YAML loader, read by /verif (tqv). Comment-only.
+package yaml
+
+//@ func (l *YAML) Unmarshal(b []byte) (err error)
+//@   requires l != nil
+//@   modifies l.ServerConfig, ghost.sends
+//@   ensures[C16] err != nil ==> ghost.sends == old(ghost.sends)
+//@   ensures[C16] err == nil ==> ghost.sends == old(ghost.sends) + 1
